@@ -181,7 +181,7 @@ func judgeC12(c ReqCase) *Fail {
 		return failf("params-reconstruct", "cannot reconstruct the weight of every final criterion %v from request and reports", snap.critIds())
 	}
 	mg := newMargin()
-	levels, generated, endless := refLevelsR(v.MP, true, snap, mg, r)
+	levels, generated, endless := refLevelsV(v, true, snap, mg, r)
 	if endless {
 		return failf("series-ends", "the generated series does not end within %d levels", seriesCap)
 	}
@@ -379,7 +379,7 @@ func matchSatisfaction(s *Snap, levels []map[string]float64, acc []accRec, left 
 		}
 		sth := numMap(o.Evaluation["satisfiedThresholds"])
 		for _, c := range s.Crit {
-			mn, mx := s.rangeOf(c.Id)
+			mn, mx := levelRange(s, c.Id)
 			worst := mn
 			if c.Cost {
 				worst = mx
@@ -395,6 +395,8 @@ func matchSatisfaction(s *Snap, levels []map[string]float64, acc []accRec, left 
 func judgeC13(c ReqCase) *Fail {
 	body := []byte(c.Req)
 	v := viewReq(parseReqM(body))
+	refLevelsReq = v
+	defer func() { refLevelsReq = nil }()
 	snap, r, out, f := finalState(body)
 	if f != nil {
 		return f
